@@ -1,6 +1,147 @@
 import RV.Json
+import RV.Drv.RolloutSM
+import RV.Drv.Executor
+import RV.Model.ClosedLoop
+import RV.Oracle.ClosedLoop
 namespace RV.Drv.ClosedLoop
-open Lean RV
-/-- stub: replaced by the slice that owns this suite -/
-def handle : Handler := fun _ _ _ => .error "suite not built yet"
+open Lean RV RV.Arith RV.Traffic RV.ClosedLoop RV.Drv.Arith RV.Drv.Traffic
+
+/-- the executor status without the derived `rolloutIDSame` -/
+def stToJson (s : Executor.Status) : Json :=
+  mkObj [("phase", strJ (RV.Drv.Executor.phaseStr s.phase)), ("currentBatch", intJ s.currentBatch),
+    ("batchState", strJ (RV.Drv.Executor.bstateStr s.batchState)), ("hasReadyTime", boolJ s.hasReadyTime),
+    ("hash", strJ (RV.Drv.Executor.hashStr s.hash)),
+    ("observedReplicas", intJ s.observedReplicas), ("updateRevision", strJ s.updateRevision),
+    ("stableRevision", strJ s.stableRevision), ("noNeedUpdate", optJ intJ s.noNeedUpdate),
+    ("updated", intJ s.updated), ("updatedReady", intJ s.updatedReady)]
+
+def stOfJson (j : Json) : R Executor.Status := do
+  let j' := j.setObjVal! "rolloutIDSame" (.bool false)
+  RV.Drv.Executor.statusOfJson j'
+
+def wlOfJson (j : Json) : R CWl := do
+  return { replicas := ← fInt j "replicas", generation := ← fInt j "generation", observedGeneration := ← fInt j "observedGeneration",
+           statusReplicas := ← fInt j "statusReplicas", updated := ← fInt j "updated", updatedReady := ← fInt j "updatedReady",
+           updateRevision := ← fStr j "updateRevision", currentRevision := ← fStr j "currentRevision",
+           partition := ← iosOptOfJson j "partition", paused := ← fBool j "paused",
+           owner := RV.Drv.Executor.ownerOf (← fStr j "owner"), inProgressAnno := ← fBool j "inProgressAnno" }
+
+def wlToJson (w : CWl) : Json :=
+  mkObj [("replicas", intJ w.replicas), ("generation", intJ w.generation), ("observedGeneration", intJ w.observedGeneration),
+    ("statusReplicas", intJ w.statusReplicas), ("updated", intJ w.updated), ("updatedReady", intJ w.updatedReady),
+    ("updateRevision", strJ w.updateRevision), ("currentRevision", strJ w.currentRevision),
+    ("partition", optJ iosToJson w.partition), ("paused", boolJ w.paused), ("owner", strJ (RV.Drv.Executor.ownerStr w.owner)),
+    ("inProgressAnno", boolJ w.inProgressAnno)]
+
+def brOfJson (j : Json) : R CBr := do
+  return { batches := ← (← fArrD j "batches").mapM iosOfJson, partition := ← fOptInt j "partition", rolloutID := ← fStr j "rolloutID",
+           policy := ← fStr j "policy", rollbackAnno := ← fBool j "rollbackAnno", specOther := ← fBool j "specOther",
+           failureThreshold := ← iosOptOfJson j "failureThreshold", deleting := ← fBool j "deleting", hasFinalizer := ← fBool j "hasFinalizer",
+           generation := ← fInt j "generation", observedGeneration := ← fInt j "observedGeneration",
+           observedRolloutID := ← fStr j "observedRolloutID", st := ← stOfJson (← jget j "st") }
+
+def brToJson (b : CBr) : Json :=
+  mkObj [("batches", arrJ (b.batches.map iosToJson)), ("partition", optJ intJ b.partition), ("rolloutID", strJ b.rolloutID),
+    ("policy", strJ b.policy), ("rollbackAnno", boolJ b.rollbackAnno), ("specOther", boolJ b.specOther),
+    ("failureThreshold", optJ iosToJson b.failureThreshold), ("deleting", boolJ b.deleting), ("hasFinalizer", boolJ b.hasFinalizer),
+    ("generation", intJ b.generation), ("observedGeneration", intJ b.observedGeneration),
+    ("observedRolloutID", strJ b.observedRolloutID), ("st", stToJson { b.st with rolloutIDSame := false })]
+
+def csOfJson (j : Json) : R CS := do
+  let (gone, ro) ← (match jopt j "ro" with
+    | none => pure (true, (default : RolloutSM.Rollout))
+    | some r => do pure (false, ← RV.Drv.RolloutSM.roOfJson r))
+  let wl ← (match jopt j "wl" with | none => pure none | some x => do pure (some (← wlOfJson x)))
+  let br ← (match jopt j "br" with | none => pure none | some x => do pure (some (← brOfJson x)))
+  return { gone := gone, ro := ro, wl := wl, br := br, net := ← netOfJson (← jget j "net"), mem := ← memOfJson (← jget j "mem") }
+
+/-- output form of the Rollout: next-step index canonicalised as in suite `rolloutsm`; the age of the Progressing
+    condition is shown only while it is read (reason Initializing) -/
+def roOutJson (r : RolloutSM.Rollout) : Json :=
+  let j := RV.Drv.RolloutSM.roToJson r
+  if r.reason = .initializing then j.setObjVal! "condAge" (strJ (RV.Drv.RolloutSM.ageStr r.condAge)) else j
+
+def csToJson (s : CS) : Json :=
+  mkObj [("ro", if s.gone then .null else roOutJson s.ro), ("wl", optJ wlToJson s.wl), ("br", optJ brToJson s.br),
+    ("net", netToJson s.net), ("mem", memToJson s.mem)]
+
+def labelOf (l : String) : Option Label :=
+  match l with
+  | "ro" => some .ro | "br" => some .br | "env" => some .env | "approve" => some .approve | "tick" => some .tick
+  | "crash" => some .crash | "delete" => some .delete
+  | _ => if l.startsWith "release:" then some (.release (l.drop 8).toString) else none
+
+def phaseTag (s : CS) : String :=
+  if s.gone then "gone" else s!"{RV.Drv.RolloutSM.phaseStr s.ro.phase}/{RV.Drv.RolloutSM.reasonStr s.ro.reason}"
+
+def handle : Handler := fun op inp impl => do
+  match op with
+  | "cstep" =>
+    let pre ← csOfJson (← jget inp "pre")
+    let lab ← fStr inp "label"
+    let post ← (if (jopt impl "panic").isSome then pure pre else csOfJson impl)
+    let tags := [s!"label:{(lab.splitOn ":").head!}", s!"at:{phaseTag pre}"] ++
+      (match pre.ro.sub with | some s => if pre.gone then [] else [s!"state:{RV.Drv.RolloutSM.stateStr s.state}"] | none => [])
+    let fwd := match jopt inp "fwd" with | some (.bool b) => b | _ => false
+    let del := match jopt inp "del" with | some (.bool b) => b | _ => false
+    let implPanic := (jopt impl "panic").isSome
+    let holds := if implPanic then [("C09.loop_total", false), ("C06.loop_total", false)] else
+      RV.Oracle.ClosedLoop.stateOracles post fwd del ++ RV.Oracle.ClosedLoop.stepOracles pre lab post fwd
+    let tags := (if RV.Oracle.ClosedLoop.gSupersedeRace post then ["guard:supersedeRace"] else []) ++ tags
+    let tags := (if fwd then "scope:fwd" else if del then "scope:del" else "scope:any") :: (if del then [if RV.Oracle.ClosedLoop.delInv post then "delInv:holds" else "delInv:fails"] else []) ++ (if RV.Oracle.ClosedLoop.fwdInv post then "fwdInv:holds" else "fwdInv:fails") :: tags
+    match labelOf lab with
+    | none => return { model := .null, holds := holds, tags := "uncompared" :: tags }
+    | some l =>
+      match step pre l with
+      | none => return { model := mkObj [("panic", strJ "?")], holds := holds, tags := "panic" :: tags }
+      | some s' => return { model := csToJson s', holds := holds, tags := (if s' == pre then ["stutter"] else []) ++ tags }
+  | "proj" =>
+    let cs ← csOfJson (← jget inp "cs")
+    let okRo ← (match jopt inp "w" with
+      | none => pure cs.gone
+      | some wj => do
+        let w ← RV.Drv.RolloutSM.worldOfJson wj
+        pure (!cs.gone && decide (roWorld cs = w)))
+    let okEx ← (match jopt inp "ex" with
+      | none => pure (exView cs).isNone
+      | some ej => do
+        let b ← RV.Drv.Executor.brOfJson (← jget ej "br")
+        let wl ← (match jopt ej "wl" with | none => pure none | some x => do pure (some (← RV.Drv.Executor.wlOfJson x)))
+        pure (match exView cs with
+          | some (b', wl') => decide (b' = b) && decide (wl' = wl)
+          | none => false))
+    return { holds := [("C06.proj_ro", okRo), ("C06.proj_ex", okEx), ("C01.proj_ro", okRo), ("C01.proj_ex", okEx),
+                       ("C02.proj_ro", okRo), ("C09.proj_ro", okRo), ("C09.proj_ex", okEx), ("C07.proj_ro", okRo), ("C07.proj_ex", okEx)],
+             tags := ["proj", if cs.br.isSome then "br" else "nobr"] }
+  | "trace" =>
+    let states ← (← fArr inp "states").mapM csOfJson
+    let labels ← (← fArr inp "labels").mapM jstr
+    let fwds ← (← fArr inp "fwd").mapM jbool
+    match states with
+    | [] => .error "closedloop: empty trace"
+    | s0 :: rest =>
+      -- a fault-injected reconcile is not a label of the model: the ghost is not advanced over it (judged := false, label crash is a no-op for the ghost)
+      let steps := (labels.zip (rest.zip fwds)).map fun (l, s', f) =>
+        match labelOf l with
+        | some lab => (lab, s', f)
+        | none =>
+          -- a reconcile cut short by an API fault observes what a full reconcile observes: the ghost treats it as that reconcile
+          if l.startsWith "fault-ro" then (Label.ro, s', f) else if l.startsWith "fault-br" then (Label.br, s', f) else (Label.crash, s', false)
+      let ok := RV.Oracle.ClosedLoop.traceOK (RV.Oracle.ClosedLoop.Ghost.fresh 0) s0 steps
+      let njudged := (steps.filter fun x => x.2.2).length
+      let bad := match RV.Oracle.ClosedLoop.traceFirstBad (RV.Oracle.ClosedLoop.Ghost.fresh 0) s0 steps 0 with
+        | some (i, g, a, b) => [s!"bad-at:{i}:idx={g.idx},up={g.upgraded},ro={g.routed},pa={g.pauseOK},inv={a},adv={b}"]
+        | none => []
+      -- C07: a healthy fair run (rounds ro, br, env, approve, tick; crashes allowed) of the REAL controllers finishes
+      -- within 20·(#steps + 4) rounds of its release
+      let fair := match jopt inp "fair" with | some (.bool b) => b | _ => false
+      let healthy := match jopt inp "healthy" with | some (.bool b) => b | _ => false
+      let term ← (match jopt inp "terminalAt" with | some v => jint v | none => pure (-1))
+      let nsteps ← (match jopt inp "steps" with | some v => jnat v | none => pure 0)
+      let termOK := !(fair && healthy) || (decide (0 ≤ term) && decide (term ≤ 20 * ((nsteps : Int) + 4)))
+      return { holds := [("C02.loop_gate", ok), ("C06.loop_gate", ok), ("C07.loop_terminates", termOK), ("C06.loop_terminates", termOK)],
+               tags := ["trace", s!"trace-len:{(labels.length / 50) * 50}+", if njudged == 0 then "trivial" else "trace-judged"] ++ bad ++
+                 (if fair && healthy then ["fair-healthy-run", s!"rounds-per-step:{if nsteps == 0 then 0 else term.toNat / nsteps}"] else if fair then ["fair-run-with-events"] else ["random-schedule"]) }
+  | _ => .error s!"closedloop: unknown op {op}"
+
 end RV.Drv.ClosedLoop
